@@ -24,6 +24,17 @@ HASH_SENSITIVE = [
 ]
 
 
+def same_length_pairs():
+    """texts of equal byte length, one with a front matter and one without (or with it at other offsets)"""
+    out = []
+    for a in ["---\ntitle: Soup\n---\nMix @a{1%tsp}\n", "---\nk: v\nservings: 2\n---\n@flour{200%g} and @milk{1%l}\n", "---\nlong key here: value\n---\nstep\n"]:
+        b = "Mix @salt{1%tsp} and @water{2%l} well"
+        b = (b + " and again" * 10)[: len(a.encode()) - 1] + "\n"
+        assert len(a.encode()) == len(b.encode())
+        out += [a, b]
+    return out
+
+
 def check_c18(ctx):
     core.build_harness()
     quick = ctx.tier == "quick"
@@ -31,7 +42,7 @@ def check_c18(ctx):
     ctx.model_violation(r)
     repo = repo_corpus()
     rnd = random.Random(ctx.seed)
-    texts = list(HASH_SENSITIVE) + [x["text"] for x in repo if len(x["text"]) < 4000][:25]
+    texts = list(HASH_SENSITIVE) + same_length_pairs() + [x["text"] for x in repo if len(x["text"]) < 4000][:25]
     texts += [x["text"] for x in random_corpus(ctx, 25, [t["text"] for t in repo])]
     pin = os.path.join(ctx.work, "inputs.ndjson")
     core.write_ndjson(pin, [dict(text=t) for t in texts])
